@@ -38,6 +38,7 @@ func checkC10(c *Ctx) {
 	c14RangeTracks(c) // the loader partitions the tokens by the ranges of the native syntax nodes
 	c10LexOrigin(c)
 	c14TokenKind(c, "R6") // the loader assigns tokens to nodes by the ranges recorded from these tokens
+	c14RangeParam(c, "R7")
 	c.Rule("R1 linear: in every function of hclwrite/parser.go every inputTokens value (parameter, result of a Partition*/parse* call, phi) is consumed exactly once on every path from its definition to a return: by .Tokens(), by being passed to another loader function, or by being returned; a PartitionTypeOk call consumes its receiver only on the ok edge; no partition result is discarded")
 	c.Rule("R2 order: on every path, the appends to one children list (AppendUnstructuredTokens/AppendNode/Append/appendItemNode) follow source order, where the position of a value is its path in the partition tree (results of one Partition*/parse* call are ordered by result index; parameters by the result indices at their call sites)")
 	c.Rule("R3 tiling: every Partition* helper that slices its receiver starts the first part at 0, starts each next part where the previous one ends, and ends the last part at len(it.nativeTokens)")
